@@ -471,7 +471,10 @@ class HTMLSanitizer(object):
             uri = uri.split('#', 1)[0] # Strip out the fragment identifier
         if ':' not in uri:
             return True # This is a relative URI
-        chars = [char for char in uri.split(':', 1)[0] if char.isalnum()]
+        # Keep what can be part of a scheme name (RFC 3986: letters, digits,
+        # '+', '-', '.'); anything else is noise a browser skips or rejects
+        chars = [char for char in uri.split(':', 1)[0]
+                 if char.isalnum() or char in '+-.']
         return ''.join(chars).lower() in self.safe_schemes
 
     def sanitize_css(self, text):
